@@ -81,6 +81,7 @@ func (c *FnCtx) applyRecv(st *State, ch Term, g Term) Term {
 
 func (c *FnCtx) chanSend(fr *Frame, st *State, x *ssa.Send) {
 	ch := c.term(fr, st, x.Chan)
+	c.callSiteAsserts(fr, st, x)
 	key := c.opKeyOf(fr, x)
 	c.ogBefore(fr, st, key)
 	c.chanFacts(st, ch)
